@@ -30,6 +30,7 @@ Inductive dispatch_shape (s : st) (b : nat) (fo : bool) : st -> bool -> Prop :=
 | ds_ready t r : aborting s = false -> ready s = t :: r ->
     dispatch_shape s b fo (submit_state s (taken s) (pre_left s) r t) true
 | ds_iterfail f pl : aborting s = false -> ready s = [] -> ifail s = Some f -> taken s <= f ->
+    f - taken s <= N s - taken s ->
     dispatch_shape s b fo (do_iter_error s f pl) true
 | ds_none : aborting s = false -> ready s = [] ->
     (N s <= taken s \/ (fo = false /\ pre_left s = Some 0) \/ b * n_jobs (c s) = 0) ->
@@ -109,8 +110,9 @@ Proof.
         exact (ds_slice s b fo k fin t r _ Hab Hr A1 A2 Hkb A4 A5 A6 Hf A8 Hc). }
   destruct (ifail s) as [f|] eqn:Hif.
   - destruct ((taken s <=? f) && (f - taken s <? calls)) eqn:Hc.
-    + cbn [fst snd]. apply andb_prop in Hc as [H1 H2]. apply Nat.leb_le in H1.
+    + cbn [fst snd]. apply andb_prop in Hc as [H1 H2]. apply Nat.leb_le in H1. apply Nat.ltb_lt in H2.
       eapply ds_iterfail; try eassumption.
+      unfold calls in H2. destruct (lim <=? avail) eqn:Hla; [apply Nat.leb_le in Hla|]; unfold avail in *; lia.
     + apply Hnofail. apply andb_false_iff in Hc. destruct Hc as [Hc | Hc].
       * right. apply Nat.leb_gt in Hc. exact Hc.
       * apply Nat.ltb_ge in Hc. unfold calls in Hc.
@@ -131,15 +133,18 @@ Hypothesis P_call : forall s cf n f, P s -> wf_cfg cf -> running s = false ->
 Hypothesis P_dispatch : forall s b fo s' r, P s -> 1 <= n_jobs (c s) -> 1 <= b ->
   (fo = false -> phase s = StartFirst \/ phase s = StartLoop) ->
   dispatch_shape s b fo s' r -> P s'.
-Hypothesis P_start_first : forall s (r : bool), P s -> phase s = StartFirst ->
+Definition no_more (s : st) : Prop :=
+  aborting s = true \/ (ready s = [] /\ (N s <= taken s \/ pre_left s = Some 0)).
+Hypothesis P_start_first : forall s (r : bool), P s -> phase s = StartFirst -> (r = false -> no_more s) ->
   P (set_flags s (if r then orig s else iterating s) (orig s) StartLoop).
-Hypothesis P_end_start : forall s, P s -> (phase s = StartFirst \/ phase s = StartLoop) -> P (end_start s).
+Hypothesis P_end_start : forall s, P s -> phase s = StartLoop -> no_more s -> P (end_start s).
 Hypothesis P_cb_start : forall s t o, P s -> P (cb_start s t o).
 Hypothesis P_cb_close : forall s t k, P s -> nth_error (trk s) t = Some k -> In t (cbmid s) ->
   tk_cid k = cid s -> P (mark_closed (add_comp s (length (tk_tasks k)) (remove_id t (cbmid s))) t).
 Hypothesis P_cb_stale : forall s t k, P s -> nth_error (trk s) t = Some k -> In t (cbmid s) ->
   tk_cid k <> cid s -> P (add_comp s 0 (remove_id t (cbmid s))).
-Hypothesis P_exhaust : forall s, P s -> orig s = true -> P (set_flags s false false (phase s)).
+Hypothesis P_exhaust : forall s, P s -> orig s = true ->
+  (aborting s = true \/ (ready s = [] /\ N s <= taken s)) -> P (set_flags s false false (phase s)).
 Hypothesis P_want : forall s, P s -> P (set_want s).
 Hypothesis P_close_try : forall s, P s -> phase s = Retrieving -> P (finalize s Finished true true).
 Hypothesis P_close_drain : forall s r, P s -> phase s = Draining r -> P (set_out s (jobs s) (jset s) [] false Finished).
@@ -215,9 +220,11 @@ Proof.
     assert (H2 : P s2).
     { apply (P_dispatch s1 b true s2 r H1 Hnj Hb); [intros HH; discriminate HH | exact Hsh]. }
     destruct r; [exact H2|].
-    apply P_exhaust; [exact H2|].
-    (* orig is not changed by dispatch_one_batch *)
-    inversion Hsh; subst; try exact Ho; reflexivity.
+    inversion Hsh; subst.
+    + apply P_exhaust; [exact H2 | exact Ho | left; assumption].
+    + apply P_exhaust; [exact H2 | exact Ho |]. right. split; [assumption|].
+      match goal with Hx : _ \/ _ \/ _ |- _ => destruct Hx as [Hy | [[Hy _] | Hy]];
+        [exact Hy | discriminate Hy | exfalso; change (n_jobs (c s1)) with (n_jobs (c s)) in Hy; nia] end.
   - eapply P_cb_stale; eassumption.
 Qed.
 
@@ -231,16 +238,24 @@ Proof.
       destruct (dispatch_one_batch s b false) as [s1 r] eqn:Hd. cbn [fst snd] in Hsh.
       assert (H1 : P s1) by (apply (P_dispatch s b false s1 r Hs Hnj Hwf); [intros _; left; exact Hph | exact Hsh]).
       assert (Hph1 : phase s1 = StartFirst) by (inversion Hsh; subst; exact Hph).
-      pose proof (P_start_first s1 r H1 Hph1) as H2.
-      cbn [fst]. destruct (aborting _); [|exact H2].
-      apply P_end_start; [exact H2 | right; reflexivity].
+      assert (Hnm : r = false -> no_more s1).
+      { intros ->. inversion Hsh; subst.
+        - left. assumption.
+        - right. split; [assumption|].
+          match goal with Hx : _ \/ _ \/ _ |- _ => destruct Hx as [Hy | [[_ Hy] | Hy]]; [left; exact Hy | right; exact Hy | exfalso; nia] end. }
+      pose proof (P_start_first s1 r H1 Hph1 Hnm) as H2.
+      cbn [fst]. destruct (aborting _) eqn:Hab2; [|exact H2].
+      apply P_end_start; [exact H2 | reflexivity | left; exact Hab2].
     + pose proof (dispatch_one_batch_shape s b false Hnj Hwf) as Hsh.
       destruct (dispatch_one_batch s b false) as [s1 r] eqn:Hd. cbn [fst snd] in Hsh.
       assert (H1 : P s1) by (apply (P_dispatch s b false s1 r Hs Hnj Hwf); [intros _; right; exact Hph | exact Hsh]).
       assert (Hph1 : phase s1 = StartLoop) by (inversion Hsh; subst; exact Hph).
       destruct r.
-      * destruct (aborting s1); cbn [fst]; [apply P_end_start; auto | exact H1].
-      * cbn [fst]. apply P_end_start; auto.
+      * destruct (aborting s1) eqn:Hab1; cbn [fst]; [apply P_end_start; [exact H1 | exact Hph1 | left; exact Hab1] | exact H1].
+      * cbn [fst]. apply P_end_start; [exact H1 | exact Hph1 |]. inversion Hsh; subst.
+        -- left. assumption.
+        -- right. split; [assumption|].
+           match goal with Hx : _ \/ _ \/ _ |- _ => destruct Hx as [Hy | [[_ Hy] | Hy]]; [left; exact Hy | right; exact Hy | exfalso; nia] end.
   - cbn [fst]. apply P_cb_start; exact Hs.
   - cbn [fst]. apply P_cb_finish; assumption.
   - destruct (phase s); cbn [fst]; try exact Hs; apply P_want; exact Hs.
@@ -278,7 +293,7 @@ End Preservation.
 Record Inv1 (s : st) : Prop := {
   i_wf : wf_cfg (c s);
   i_part : ifail s = None -> concat (submitted s) ++ concat (ready s) = seq 0 (taken s);
-  i_le : ifail s = None -> taken s <= N s;
+  i_le : taken s <= N s;
   i_ready_ne : Forall (fun t => t <> []) (ready s);
   i_sub_ne : ifail s = None -> Forall (fun t => t <> []) (submitted s)
 }.
@@ -309,7 +324,7 @@ Proof.
       rewrite <- app_assoc. cbn [concat] in Hpart. exact Hpart.
     + intros Hi. apply Forall_app. split; [auto | constructor; [exact Ht | constructor]].
   - (* iterator failure: ifail is Some *)
-    constructor; cbn; auto; intros Hi; congruence.
+    constructor; cbn; auto; try (intros Hi; congruence). lia.
   - constructor; assumption.
   - (* a new slice *)
     match goal with Hr : ready s = [] |- _ => rewrite Hr in Hpart end.
@@ -322,7 +337,7 @@ Proof.
       rewrite concat_app. cbn [concat]. rewrite app_nil_r. rewrite <- app_assoc.
       change (t ++ concat r0) with (concat (t :: r0)). rewrite <- Hchunks, chunks_concat.
       rewrite Hpart. rewrite <- seq_app. reflexivity.
-    + intros Hi. specialize (Hle Hi). lia.
+    + lia.
     + intros Hi. apply Forall_app. split; [auto | constructor; [exact Ht | constructor]].
 Qed.
 
